@@ -718,6 +718,9 @@ def r09_4(ctx):
                     continue
             gs = normalized_guards(ctx, b, d.bb)
             for op, a, b2, si in gs:
+                if op == '!true' and is_call(a, 'is_multiple_of') and len(a[2]) == 2 and const_val(a[2][1]) == 2:
+                    a = ('bin', 'Rem', a[2][0], a[2][1])        # !n.is_multiple_of(2) is n % 2 == 1 for an unsigned n
+                    op, b2 = 'Eq', ('const', 'usize', '1')
                 if op == 'Eq' and const_val(b2) == 1 and a[0] == 'bin' and a[1] == 'Rem' and const_val(a[3]) == 2:
                     n = strip_all(a[2])
                     if (n[0] == 'un' and n[1] == 'PtrMetadata' and strip_all(n[2]) in (('param', arr), ('deref', ('param', arr)))) or (is_call(n, '::len') and strip_all(n[2][0]) in (('param', arr), ('deref', ('param', arr)))):
@@ -755,13 +758,18 @@ def r09_4(ctx):
         return False
     for L in off_locals:
         for d in an.defs_of.get(L, []):
-            if d.kind != 'assign':
+            if d.kind not in ('assign', 'call'):
                 continue
             t = an.def_term(d)
             # the reduction is applied to the offset as given (not to an already folded value: `%` keeps the sign, so
             # folding a negative offset by one period first and reducing afterwards leaves offsets below -period negative)
             if t[0] == 'bin' and t[1] == 'Rem' and only_defs_of(t[2], lambda dd: dd is None or dd.kind == 'param'):
                 rem = True
+                rem_defs.append(d)
+            # x.rem_euclid(period): `%` followed by `+ |period|` when negative — both steps in one (the period is positive here)
+            if is_call(strip_all(t), 'f32::rem_euclid', 'f32>::rem_euclid', 'rem_euclid') and len(strip_all(t)[2]) == 2 and only_defs_of(strip_all(t)[2][0], lambda dd: dd is None or dd.kind == 'param'):
+                rem = True
+                nonneg = True
                 rem_defs.append(d)
     for L in off_locals:
         for d in an.defs_of.get(L, []):
